@@ -344,6 +344,30 @@ pub fn gen_history(rng: &mut Rng, justified: bool) -> (Vec<Sx>, Vec<Sx>, String)
             add(rt(6, vec![null_app()], vec![w(perm[(kept_a - 1) as usize], perm[(kept_b - 1) as usize])]), &mut terms, &mut ops, &mut nadd);
             "redundancy"
         }
+        6 => { // a symmetry whose generator has TWO non-trivial cycles, then one slot of one cycle becomes redundant:
+               // g4(1,2,3,4) = g4(2,1,4,3); g4(1,2,3,4) = g(2,3,4)  =>  slots 1 and 2 go (orbit closure), 3 and 4 stay (with (3 4))
+            let g4 = |p: [u64; 4]| rt(2, p.iter().map(|s| slot_arg(*s)).collect(), vec![]);
+            let g3 = |p: [u64; 3]| rt(1, p.iter().map(|s| slot_arg(*s)).collect(), vec![]);
+            let wrap = rng.chance(1, 3);
+            let t = |p: [u64; 4]| if wrap { rt(8, vec![bind(9, null_app())], vec![rt(7, vec![null_app(), null_app()], vec![g4(p), rt(5, vec![slot_arg(9)], vec![])])]) } else { g4(p) };
+            let dbl: [u64; 4] = *rng.pick(&[[2u64, 1, 4, 3], [3, 4, 1, 2], [4, 3, 2, 1]]);
+            let h0 = add(t([1, 2, 3, 4]), &mut terms, &mut ops, &mut nadd);
+            let h1 = add(t(dbl), &mut terms, &mut ops, &mut nadd);
+            union(h0, h1, &mut ops, &mut jn);
+            let drop = rng.below(4) as usize;
+            let rest: Vec<u64> = (1..=4u64).filter(|x| *x != (drop as u64 + 1)).collect();
+            let h2 = add(g3([rest[0], rest[1], rest[2]]), &mut terms, &mut ops, &mut nadd);
+            if rng.chance(1, 2) { union(h0, h2, &mut ops, &mut jn); } else { union(h2, h0, &mut ops, &mut jn); }
+            // probes: invocations that differ in the slots that must stay
+            add(t([1, 2, 5, 6]), &mut terms, &mut ops, &mut nadd);
+            add(t([5, 6, 3, 4]), &mut terms, &mut ops, &mut nadd);
+            add(t([1, 2, 4, 3]), &mut terms, &mut ops, &mut nadd);
+            add(t([2, 1, 3, 4]), &mut terms, &mut ops, &mut nadd);
+            add(t([7, 8, 3, 4]), &mut terms, &mut ops, &mut nadd);
+            add(rt(6, vec![null_app()], vec![t([1, 2, 3, 4])]), &mut terms, &mut ops, &mut nadd);
+            add(rt(6, vec![null_app()], vec![t([1, 2, 5, 6])]), &mut terms, &mut ops, &mut nadd);
+            "symmetry"
+        }
         _ => "random",
     };
     // random part: some terms with their subterms, some unions
